@@ -109,7 +109,7 @@ def satisfying_blocks(body, extra_sinks=()):
         t = body.term(b)
         if t["k"] == "call":
             nm = strip_generics(t.get("resolved") or t.get("callee"))
-            if nm in sinks:
+            if nm in sinks or _records_what_it_is_given(body, t):
                 S.add(b)
             elif nm == FROM_RESIDUAL and t["dest"]["l"] == 0:
                 S.add(b)
@@ -120,6 +120,42 @@ def satisfying_blocks(body, extra_sinks=()):
             if nm in ERR_TO_OPTION and body.local_name(t["dest"]["l"]) is not None:
                 S.add(b)
     return S
+
+
+_REC_CACHE = {}
+
+
+def _records_what_it_is_given(body, t):
+    """The call hands the error to a private helper that is not on the reviewed tree's function list and that records it
+    on every path (a status store / a recording sink dominates each of its returns): `record_seek_error(.., error)`
+    extracted from a function that used to do the store itself."""
+    path = t.get("resolved")
+    P = body.prog
+    if not path or not t.get("local") or t.get("dyn") or P is None:
+        return False
+    if path not in _REC_CACHE:
+        ok = False
+        from . import inline
+        known = inline.load_known() or set()
+        h = getattr(P, "bodies_as_written", {}).get(path)
+        if h is not None and path not in known and h.kind != "closure" and h is not body:
+            S = set()
+            try:
+                S = satisfying_blocks(h)
+            except RecursionError:
+                S = set()
+            # only genuine recording counts here, not `return Err(..)` of the helper
+            rec = set()
+            for b_ in S:
+                for st in h.blocks[b_]["stmts"]:
+                    if st["k"] == "assign" and not (st["pl"]["l"] == 0 and not st["pl"]["p"]):
+                        rec.add(b_)
+                tt = h.term(b_)
+                if tt["k"] == "call" and strip_generics(tt.get("resolved") or tt.get("callee")) in SINKS:
+                    rec.add(b_)
+            ok = bool(rec) and all(h.must_pass(r, through_nodes=rec, through_edges=first_error_wins_edges(h)) for r in h.return_blocks())
+        _REC_CACHE[path] = ok
+    return _REC_CACHE[path]
 
 
 def first_error_wins_edges(body):
